@@ -164,3 +164,27 @@ package mat
 //@   property C05, C20
 //@   purefn
 //@   ensures result == (m.n == 1)
+
+// ---------------------------------------------------------------- determinant: sign and pivot bookkeeping (C20)
+// Gaussian elimination with row exchanges: the value returned on the success path is (product of the pivots, in
+// order) multiplied by the sign, and the sign is +1 or -1 according to the PARITY OF THE NUMBER OF ROW EXCHANGES
+// performed (one sign flip per exchange, whatever the distance between the exchanged rows); a missing pivot yields
+// zero. (That elimination preserves the determinant is mathematics outside this contract.)
+//@ theory ringneg
+//@ axiom RNegNeg: forall x V :: rneg(rneg(x)) == x
+//@ end
+//@ func (*SquareMatrix).Determinant
+//@   property C20
+//@   bind S ring, FiniteRing ringS
+//@   uses ringneg
+//@   ghostvar nsw int
+//@   ghostvar pv map[int]typeof(det)
+//@   requires wfSq(m)
+//@   ensures exists k Int :: k >= 0 && (result == m.Algebra().ScalarRing().Zero() || (result == pv[k].Mul(ite(nsw % 2 == 0, m.Algebra().ScalarRing().One(), m.Algebra().ScalarRing().One().Neg()))))
+//@   loop range(n)
+//@     invariant nsw >= 0 && sign == ite(nsw % 2 == 0, m.Algebra().ScalarRing().One(), m.Algebra().ScalarRing().One().Neg()) && det == pv[$i] && pv[0] == m.Algebra().ScalarRing().One()
+//@     invariant forall t int :: 0 <= t && t < $i ==> exists q V :: pv[t+1] == pv[t].Mul(q)
+//@   ghostset before "sign := m.Algebra().ScalarRing().One()": nsw = 0
+//@   ghostset after "det := m.Algebra().ScalarRing().One()": pv[0] = det
+//@   ghostset after "a.SwapRowAssign(k, pivot)": nsw = nsw + 1
+//@   ghostset after "det = det.Mul(pivotVal)": pv[$i+1] = det
